@@ -59,7 +59,7 @@ Planned ==
 ParSites == 1..3      \* memberships, min_dists, memberships_dists
 RedSites == 4..5      \* centroids, centroids_incr
 SumSites == 6..10     \* fit, fit_with, fit_with_init, plusplus, cluster_count
-MaxTid   == 63
+MaxTid   == 127
 
 H0 == [st |-> SchedInit0, site |-> 0, last |-> [t \in 1..(MaxTid + 1) |-> -1], tids |-> {}, bad |-> 0]
 
